@@ -194,17 +194,25 @@ pub fn report(prop: &str, tier: &str, runs: Vec<Run>, rule: &str, required_guard
             // confirm by re-execution of the history from the initial state
             let mut st = stateright::Model::init_states(&r.model).remove(0);
             let mut last: Vec<Issue> = vec![];
+            let mut panicked = false;
             for a in hist {
-                let (n2, is) = r.model.step(&st, *a);
-                st = n2;
-                last = is;
+                match std::panic::catch_unwind(std::panic::AssertUnwindSafe(|| r.model.step(&st, *a))) {
+                    Ok((n2, is)) => {
+                        st = n2;
+                        last = is;
+                    }
+                    Err(_) => {
+                        panicked = true;
+                        break;
+                    }
+                }
             }
             if probe_mode {
                 if let Some(p) = &r.model.probe {
                     last.extend(p(&r.model, &st));
                 }
             }
-            let reproduced = last.iter().any(|i| &i.sig == sig) || probe_mode;
+            let reproduced = last.iter().any(|i| &i.sig == sig) || probe_mode || (panicked && sig.starts_with("library-panicked"));
             if !reproduced {
                 eprintln!("MACHINERY: violation {} did not reproduce when its history was replayed", sig);
                 machinery_fail = true;
